@@ -345,3 +345,242 @@ def synth_wsdl(r, n_ops, headers=True, parts_attr=None, styles=None):
     x.append('</wsdl:binding>\n<wsdl:service name="Svc"><wsdl:port name="SvcPort" binding="tns:SvcBinding">'
              '<soap:address location="http://127.0.0.1:9/svc"/></wsdl:port></wsdl:service>\n</wsdl:definitions>\n')
     return "".join(x), {"ops": ops, "headers": hdrs, "oneway": sorted(oneway)}
+
+
+# =========================================================================================== C12
+
+def _fresh_process_gen(zdrive, job):
+    """One fresh process (fresh RandomState keys) per call."""
+    w = common.ZWorker(zdrive)
+    try:
+        return w.run(job, wall_timeout=120)
+    finally:
+        w.close()
+
+
+def _first_diff(a, b):
+    la, lb = a.splitlines(), b.splitlines()
+    for i, (x, y) in enumerate(zip(la, lb)):
+        if x != y:
+            return i + 1, x[:160], y[:160]
+    return min(len(la), len(lb)) + 1, "<end>", "<end>"
+
+
+def _diff_class(a, b):
+    """Abstract description of where two outputs differ (signature vocabulary)."""
+    if not b.strip() or len(b) < len(a) / 4:
+        return "second-output-truncated-or-empty"
+    line, x, y = _first_diff(a, b)
+    if x.lstrip().startswith("/*") or "InputEnvelope" in x or "OutputEnvelope" in x:
+        return "operation-order"
+    if "pub async fn" in x:
+        return "method-order"
+    if "pub mod" in x:
+        return "module-order"
+    if "rename" in x or "prefix" in x:
+        return "member-choice"
+    return "other"
+
+
+def c12(tier):
+    v = Verdict("C12", tier, "exploration")
+    zdrive = common.build_tool("zdrive")
+    r = rng("C12")
+    inputs = []   # (label, files, start, distinguishing power)
+    for label, d, start in repo_corpus():
+        inputs.append((label, read_dir_files(d, start), start))
+    n_synth = 14 if tier == "quick" else 80
+    for k in range(n_synth):
+        text, meta = synth_wsdl(rng("C12", "synth", k), 2 + k % 7, headers=True)
+        inputs.append((f"synth-wsdl-{k}-ops{len(meta['ops'])}", {"svc.wsdl": text}, "svc.wsdl"))
+    # multi-file synthetic: C11-style graphs rendered through zdrive are covered by C11; here: repo multi-file sets
+    n_proc = 8 if tier == "quick" else 32
+    scratchdir = common.scratch("c12")
+    evaluated = 0
+    distinct_outputs = {}
+    accepted = 0
+    executions = 0
+    samples = []
+    import concurrent.futures as cf
+    pool = cf.ThreadPoolExecutor(max_workers=16)
+
+    def one_input(item):
+        label, files, start = item
+        recs = []
+        base_job = {"id": 0, "op": "gen", "files": files, "start": start, "cpu_budget_s": 60, "want_text": True}
+        first = _fresh_process_gen(zdrive, base_job)
+        if "calls" not in first:
+            return label, "died", [("process", common.classify_death(first) if "died" in first else "watchdog", None)], 1, 0
+        c0 = first["calls"][0]
+        if c0["outcome"] != "ok":
+            return label, "rejected", [], 1, 0
+        ref_sha, ref_text = c0["sha"], c0["text"]
+        shas = {ref_sha}
+        execs = 1
+
+        def compare(across, res_call):
+            nonlocal execs
+            execs += 1
+            if res_call.get("outcome") != "ok":
+                recs.append((across, "outcome-" + str(res_call.get("outcome")), res_call))
+                return
+            shas.add(res_call["sha"])
+            if res_call["sha"] != ref_sha:
+                recs.append((across, _diff_class(ref_text, res_call.get("text", "")),
+                             {"first_diff": _first_diff(ref_text, res_call.get("text", ""))}))
+
+        # fresh processes
+        for _ in range(n_proc - 1):
+            res = _fresh_process_gen(zdrive, base_job)
+            if "calls" in res:
+                compare("process", res["calls"][0])
+            else:
+                recs.append(("process", "died", res))
+        # threads x repeated calls in one process; call histories of length 3 on one FilesToRead
+        res = _fresh_process_gen(zdrive, dict(base_job, threads=4, calls=3))
+        for t in res.get("threads", []):
+            for ci, call in enumerate(t.get("calls", [])):
+                compare("thread" if ci == 0 else "repeat-call", call)
+        res = _fresh_process_gen(zdrive, dict(base_job, calls=3))
+        for ci, call in enumerate(res.get("calls", [])):
+            compare("process" if ci == 0 else "repeat-call", call)
+        # registration orders
+        names = sorted(files)
+        if len(names) > 1:
+            perms = list(itertools.permutations(names)) if len(names) <= 4 else \
+                [tuple(rng("C12", "perm", label, i).sample(names, len(names))) for i in range(8)]
+            for perm in perms[:24]:
+                res = _fresh_process_gen(zdrive, dict(base_job, order=list(perm)))
+                if "calls" in res:
+                    compare("registration-order", res["calls"][0])
+        # directory mode (the helper enumerates the directory itself) vs inline registration
+        d = os.path.join(scratchdir, hashlib.sha1(label.encode()).hexdigest()[:10])
+        os.makedirs(d, exist_ok=True)
+        for n, c in files.items():
+            with open(os.path.join(d, n), "w", encoding="utf-8") as f:
+                f.write(c)
+        res = _fresh_process_gen(zdrive, {"id": 0, "op": "gen", "dir": d, "start": start, "cpu_budget_s": 60, "want_text": True})
+        if "calls" in res:
+            compare("directory-enumeration", res["calls"][0])
+        return label, "ok", recs, execs, len(shas)
+
+    for label, status, recs, execs, nshas in pool.map(one_input, inputs):
+        executions += execs
+        if status == "rejected":
+            continue
+        accepted += 1
+        evaluated += 1
+        distinct_outputs[label] = nshas
+        for across, where, detail in recs:
+            v.violation(f"C12|differs|across={across}|where={where}", {"input": label, "detail": detail})
+        if len(samples) < 6:
+            samples.append({"input": label, "executions": execs, "distinct_outputs_seen": nshas})
+    import shutil
+    shutil.rmtree(scratchdir, ignore_errors=True)
+    multi_op = sum(1 for lbl in distinct_outputs if "synth" in lbl or lbl.endswith((".wsdl", "_wsdl.xml")))
+    cov = {
+        "evaluations": executions,
+        "distinct_nontrivial": multi_op,
+        "rule": "inputs = every schema/WSDL file under /repo/resources and zeep-lib/test-data that the generator accepts (with their "
+                "sibling .xsd files) + seeded synthetic WSDLs with 2-8 operations, multi-part messages, headers, with/without "
+                "parts=; per input: N fresh processes (fresh hash seeds), 4 threads x 3 repeated read_xml calls on one FilesToRead, "
+                "a call history of length 3, every/8 registration orders of the file set, and the directory-enumerating helper; "
+                "oracle = SHA-256 equality with the first output. evaluations = generator executions compared; "
+                "distinct_nontrivial = accepted inputs that are WSDLs (>= 2 operations or parts, where a hash-order dependence "
+                "can show at all)",
+        "inputs_total": len(inputs), "inputs_accepted": accepted, "fresh_processes_per_input": n_proc,
+        "distinct_outputs_seen_per_input": distinct_outputs,
+        "inputs_with_more_than_one_output": sorted(k for k, n in distinct_outputs.items() if n > 1),
+        "samples": samples,
+    }
+    v.finish(cov, assumptions=["byte comparison via SHA-256 computed inside zdrive on the Vec<u8> sink",
+                               "fresh process = fresh std RandomState keys"], min_evaluations=200)
+
+
+# =========================================================================================== C15
+
+def c15(tier):
+    v = Verdict("C15", tier, "fault_enumeration")
+    zdrive = common.build_tool("zdrive")
+    inputs = []
+    for label, d, start in repo_corpus():
+        inputs.append((label, read_dir_files(d, start), start))
+    for k in range(6 if tier == "quick" else 40):
+        text, meta = synth_wsdl(rng("C15", "synth", k), 1 + k % 5, headers=True)
+        inputs.append((f"synth-wsdl-{k}", {"svc.wsdl": text}, "svc.wsdl"))
+    # tiny documents that isolate single emitters
+    xs = 'xmlns:xs="http://www.w3.org/2001/XMLSchema"'
+    tiny = {
+        "tiny-simple-doc": f'<xs:schema {xs} targetNamespace="http://zv.test/t/one"><xs:simpleType name="S"><xs:annotation>'
+                           f'<xs:documentation>line one\nline two\nline three</xs:documentation></xs:annotation>'
+                           f'<xs:restriction base="xs:string"><xs:enumeration value="a"/></xs:restriction></xs:simpleType></xs:schema>',
+        "tiny-complex-doc": f'<xs:schema {xs} targetNamespace="http://zv.test/t/two"><xs:complexType name="C"><xs:annotation>'
+                            f'<xs:documentation>first\nsecond</xs:documentation></xs:annotation><xs:sequence>'
+                            f'<xs:element name="a" type="xs:int"/></xs:sequence><xs:attribute name="b" type="xs:string"/>'
+                            f'</xs:complexType></xs:schema>',
+        "tiny-alias": f'<xs:schema {xs} targetNamespace="http://zv.test/t/three"><xs:complexType name="C"><xs:sequence>'
+                      f'<xs:element name="a" type="xs:int"/></xs:sequence></xs:complexType><xs:element name="E" type="xs:string"/>'
+                      f'</xs:schema>',
+        "tiny-no-namespace": f'<xs:schema {xs}><xs:complexType name="C"><xs:sequence><xs:element name="a" type="xs:int"/>'
+                             f'</xs:sequence></xs:complexType><xs:simpleType name="S"><xs:restriction base="xs:int">'
+                             f'<xs:minInclusive value="1"/></xs:restriction></xs:simpleType></xs:schema>',
+    }
+    for k, t in tiny.items():
+        inputs.append((k, {"t.xsd": t}, "t.xsd"))
+    jobs = []
+    for i, (label, files, start) in enumerate(inputs):
+        jobs.append({"id": i, "op": "sinkscan", "files": files, "start": start, "cpu_budget_s": 600,
+                     "max_all": 3000 if tier == "quick" else 20000, "sample": 800 if tier == "quick" else 6000,
+                     "seed": common.seed_value() * 7919 + i})
+    results = common.run_jobs(zdrive, jobs, nworkers=16, wall_timeout=1500)
+    injections = 0
+    scanned = 0
+    pairs = 0
+    outcomes = {}
+    samples = []
+    short_total = {}
+    for (label, files, start), res in zip(inputs, results):
+        if res.get("watchdog") or "died" in res:
+            v.inconclusive = v.inconclusive or None
+            if "died" in res:
+                v.violation(f"C15|process-died|how={common.classify_death(res)}", {"input": label, "stderr": res.get("stderr")})
+            continue
+        if res.get("status") != "scanned":
+            continue
+        scanned += 1
+        injections += res["injections"]
+        pairs += res["distinct_chunks"]
+        for k, n in res["outcomes"].items():
+            outcomes[k] = outcomes.get(k, 0) + n
+        for a in res["anomalies"]:
+            site = a.get("site") or (a.get("panic") or {}).get("func") or "?"
+            site = site.replace("zeep_lib::", "")
+            v.violation(f"C15|{a['verdict']}|site={site}|mode={a['mode']}",
+                        {"input": label, "write_call": a["k"], "error_kind": a["kind"], "chunk": a.get("chunk"),
+                         "panic": a.get("panic"), "err": a.get("err")})
+        for s in res["short"]:
+            short_total[s["pattern"] + ":" + s["verdict"]] = short_total.get(s["pattern"] + ":" + s["verdict"], 0) + 1
+            if s["verdict"] != "identical":
+                v.violation(f"C15|short-write|pattern={s['pattern']}|effect={s['verdict']}", {"input": label, "detail": s})
+        if len(samples) < 8:
+            samples.append({"input": label, "write_calls": res["write_calls"], "bytes": res["bytes"],
+                            "indices_injected": res["ks"], "all_indices": res["exhaustive"], "injections": res["injections"]})
+    cov = {
+        "evaluations": injections,
+        "distinct_nontrivial": pairs,
+        "rule": "for each accepted document (repository schemas/WSDLs, synthetic WSDLs, four single-emitter minis) write_xml runs on "
+                "a sink that fails at write call k, for every k when the document has <= max_all write calls (else first/last "
+                "max_all/2 plus a seeded sample), x {fail once then healthy, fail forever} x error kinds {Other, WriteZero, BrokenPipe, "
+                "StorageFull} (all kinds for small documents and k<64, one rotating kind otherwise); expected outcome: "
+                "Err(WriterError::Io), never Ok, never panic; plus 4 short-write patterns whose collected bytes must equal the "
+                "unconstrained output. evaluations = injected failures; distinct_nontrivial = distinct (document, written chunk) "
+                "pairs at which a failure was injected (chunk identity ~ emitting call site)",
+        "exhaustive": tier == "thorough" or None,
+        "documents_scanned": scanned, "documents_total": len(inputs), "outcomes": outcomes, "short_write_results": short_total,
+        "samples": samples,
+    }
+    if cov["exhaustive"] is None:
+        del cov["exhaustive"]
+    v.finish(cov, assumptions=["failure injection at the io::Write::write boundary (tools/zdrive/src/sinks.rs); flush is never called by the writer",
+                               "WriterError::Io is recognised by its Debug variant name (the error type is private)"],
+             min_evaluations=5000)
